@@ -466,11 +466,11 @@ class Worker:
         except StopIteration as e:
             self._process_task_completion(task, e.value)
 
-        except Exception as e:
-            if type(e) is RuntimeError:
-                for addr in self._cancelled_task_ids:
-                    if task.is_descendant_of(addr):
-                        return
+        except Exception:
+            # Whatever a cancelled task fails with is not reported
+            for addr in self._cancelled_task_ids:
+                if task.is_descendant_of(addr):
+                    return
 
             assert self._active_task is not None  # for type checker
 
